@@ -73,7 +73,8 @@ pub fn query_get_twap_price(
         return Err(StdError::generic_err("Interval can't be zero"));
     }
 
-    let base_timestamp = env.block.time.seconds().checked_sub(interval).unwrap();
+    // an interval longer than the chain's clock reaches back beyond every round: the window starts at zero
+    let base_timestamp = env.block.time.seconds().saturating_sub(interval);
     let prices_response = read_price_data(deps.storage, key);
 
     // get the current data
